@@ -8,7 +8,7 @@ from symx import engine as E
 ID = "C11"
 MODULES = ["hta.trace_analysis", "hta.common.trace_symbol_table"]
 MUST_NOT_RAISE = True
-BUDGET_S = {"quick": 420, "thorough": 3000}
+BUDGET_S = {"quick": 420, "thorough": 1200}
 VOC = ["alpha", "beta", "gamma", "delta"]
 BOUNDS = {
     "quick": "histories: 3 add_symbols calls of <= 2 symbols each, symbols = solver-chosen indices into a 4-string "
